@@ -22,7 +22,7 @@ RULE = (
     "of every individually computed block. Non-trivial / distinct = a (cell, plan) pair not seen before (counted by the "
     "case digest; every enumerated cell is distinct and runs >= 9 plans)."
 )
-BUDGET = {"quick": 30, "thorough": 600}
+BUDGET = {"quick": 60, "thorough": 600}
 ASSUMPTIONS = [
     "cells where NumPy has no convention (quantile/median dtype for float32, datetime mean) are held to plan-independence and truthfulness only",
     "fill values are only generated together with an absent requested label",
